@@ -3,6 +3,7 @@ package props
 import (
 	"fmt"
 	"go/token"
+	"go/types"
 	"strings"
 
 	"verif/third_party/xtools/go/ssa"
@@ -329,6 +330,61 @@ func c18Rules(p *core.Prog, r *core.Run) {
 		r.Check("C18.K3", "dialfunc:context-aware", nBlind == 0, p.Pos(nd.Pos()), "the default DialFunc and dialOne connect and handshake through context-taking calls (%d context-blind calls)", nBlind)
 	}
 
+	// a connection the default DialFunc has opened and does not return is
+	// closed: every way out after a successful connect either returns the
+	// connection (or what was made of it) or has passed a Close of it
+	if nd := p.Func(Ech, "NewDialer"); nd != nil {
+		netConn := netConnIface(p)
+		nAcq := 0
+		for _, fn := range core.Closures(nd) {
+			if fn == nd {
+				continue
+			}
+			for _, s := range allCalls(p, []*ssa.Function{fn}) {
+				cv, ok := s.Instr.(*ssa.Call)
+				if !ok || netConn == nil {
+					continue
+				}
+				tup, ok := cv.Type().(*types.Tuple)
+				if !ok || tup.Len() != 2 || !types.Implements(tup.At(0).Type(), netConn) || !isErrorType(tup.At(1).Type()) {
+					continue
+				}
+				nAcq++
+				mentions := func(e *core.Expr) bool {
+					return e.Any(func(x *core.Expr) bool { return x.Val == ssa.Value(cv) })
+				}
+				var closes []ssa.Instruction
+				for _, c := range allCalls(p, []*ssa.Function{fn}) {
+					if strings.HasSuffix(c.X.Name, ".Close") && len(c.X.Args) > 0 && mentions(c.X.Args[0]) {
+						closes = append(closes, c.Instr)
+					}
+				}
+				for i, ret := range core.Returns(fn) {
+					if !core.MayFollow(cv, ret) {
+						continue
+					}
+					failed := false
+					for _, f := range p.Facts(ret.Block()) {
+						if f.Op == "!=" && f.R != nil && f.R.Name == "nil" && f.L.Op == "ext" && f.L.Name == "#1" && len(f.L.Args) == 1 && f.L.Args[0].Val == ssa.Value(cv) {
+							failed = true
+						}
+					}
+					if failed {
+						continue
+					}
+					ok := len(ret.Results) > 0 && mentions(p.X(ret.Results[0]))
+					for _, c := range closes {
+						if c.Block() == ret.Block() || c.Block().Dominates(ret.Block()) {
+							ok = true
+						}
+					}
+					r.Check("C18.K4", fmt.Sprintf("dialfunc:%s#%d:return#%d", s.X.Name, nAcq, i), ok, p.InstrPos(ret), "after %s succeeded, this way out returns the connection or has closed it", s.X.Name)
+				}
+			}
+		}
+		r.Check("C18.K4", "dialfunc:connects", nAcq >= 1, p.Pos(nd.Pos()), "connection-opening calls examined in the default DialFunc (%d)", nAcq)
+	}
+
 	// ... and nothing on the way from Dial to the network detaches from the
 	// context it was given: name resolution for a later address runs under
 	// Dial's context and must end with it
@@ -353,6 +409,23 @@ func c18Rules(p *core.Prog, r *core.Run) {
 			nDetach++
 			r.Check("C18.K3", fmt.Sprintf("detached-context#%d", nDetach), false, p.InstrPos(s.Instr), "%s in %s: what runs under it is ended neither by the attempt's timeout nor by Dial's cancellation", s.X.Name, p.FuncName(core.Root(s.Fn)))
 		}
+		// ... and what Dial calls starts no goroutine of its own: the three that
+		// Dial starts and waits for (K1, K2) are all there is
+		nStray := 0
+		for _, f := range scope {
+			if core.Root(f) == dial {
+				continue
+			}
+			for _, b := range f.Blocks {
+				for _, in := range b.Instrs {
+					if g, ok := in.(*ssa.Go); ok {
+						nStray++
+						r.Check("C18.K1", fmt.Sprintf("go:outside-Dial#%d", nStray), false, p.InstrPos(g), "%s starts a goroutine that Dial neither counts nor waits for", p.FuncName(f))
+					}
+				}
+			}
+		}
+		r.Check("C18.K1", "go:outside-Dial", nStray == 0, p.Pos(dial.Pos()), "no go statement in what Dial, Resolve and RoundTrip call in this module (%d functions, %d found)", len(scope), nStray)
 		r.Check("C18.K3", "detached-context", nDetach == 0 && len(scope) >= 5, p.Pos(dial.Pos()), "no context detached from the caller's on the way from Dial, Resolve and RoundTrip to the network (%d functions, %d detachments)", len(scope), nDetach)
 	}
 
@@ -829,4 +902,22 @@ func valueOrError(p *core.Prog, r *core.Run, rule, label string, fn *ssa.Functio
 		}
 		r.Check(rule, fmt.Sprintf("%s:return#%d", label, i), okErr, p.InstrPos(ret), "a return of %s without a value carries an error that cannot be nil %s", label, why)
 	}
+}
+
+// netConnIface returns the net.Conn interface type, if the program imports net.
+func netConnIface(p *core.Prog) *types.Interface {
+	for _, pk := range p.SSA.AllPackages() {
+		if pk.Pkg.Path() == "net" {
+			if o := pk.Pkg.Scope().Lookup("Conn"); o != nil {
+				if it, ok := o.Type().Underlying().(*types.Interface); ok {
+					return it
+				}
+			}
+		}
+	}
+	return nil
+}
+
+func isErrorType(t types.Type) bool {
+	return types.Identical(t, types.Universe.Lookup("error").Type())
 }
